@@ -142,6 +142,9 @@ pub fn fnv(s: &str) -> u64 {
 // Panic capture
 // ---------------------------------------------------------------------------------------------
 pub fn silence_panics() {
+    if std::env::var_os("VERIF_SHOW_PANICS").is_some() {
+        return; // development aid: keep the default hook so that a panic of the harness itself shows its location
+    }
     std::panic::set_hook(Box::new(|_| {}));
 }
 
